@@ -16,7 +16,9 @@ EXPLANATION = (
     "the bitmap base / bucket slot address expressions agree between the writer, the scanner and the file-length "
     "formula of the open. (4) Scan compensation: a conditional `idx -= stride` that undoes a strided loop's overshoot "
     "must be guarded by evidence that the loop body executed (comparison with a pre-loop snapshot of the index, or a "
-    "flag set in the loop), not by a range test of the index against a constant.")
+    "flag set in the loop), not by a range test of the index against a constant. (5) The .htx cursor is shared by every "
+    "call on the map: each raw read / write / relative seek of an htx-layer function is dominated by an absolute seek "
+    "in the same function (io-positioned).")
 NOT_DECIDED = ("exactly-once / nothing-else as a fact about all table states (the scan's index arithmetic over run-time "
                "bitmap contents), behaviour after deletions, termination; the unconditional `idx - 8` after the byte-wise "
                "loop relies on a value precondition (triaged under C07).")
